@@ -593,12 +593,15 @@ pub fn run_handle_count(seed: u64, runs: u64, budget_ms: u64, small: bool, shard
         if budget_ms != 0 && t0.elapsed().as_millis() as u64 > budget_ms {
             break;
         }
+        // a third kind of trial: one of two handles of a stream receives and leaves while its sibling
+        // is inside a receive of its own (consumers 2 -> 1 in the middle of an operation)
+        let sibling_leaves = rng.chance(1, 3);
         let side_rx = rng.chance(1, 2);
         let bro = rng.chance(2, 3);
         let cap = *rng.pick(&[1u64, 2, 4, 8]);
         let n_actual = cap.next_power_of_two();
         let mut sig = Hasher64::new();
-        sig.add_str(&format!("handle-count{}{}{}", side_rx, bro, cap));
+        sig.add_str(&format!("handle-count{}{}{}{}", side_rx, bro, cap, sibling_leaves));
         for _ in 0..per_run {
             let (ka, kb) = (1 + rng.below(4), 1 + rng.below(4));
             let (d0, d1) = (rng.below(60), rng.below(60));
@@ -640,7 +643,66 @@ pub fn run_handle_count(seed: u64, runs: u64, budget_ms: u64, small: bool, shard
                     (x, y)
                 }};
             }
-            if side_rx && bro {
+            if sibling_leaves {
+                let by_unsub = (ka + kb) % 2 == 0;
+                macro_rules! leave {
+                    ($tx:expr, $rx:expr, $ty:ty) => {{
+                        let tx = $tx;
+                        let rx = $rx;
+                        for v in 1..=4u64 {
+                            let _ = tx.try_send(v);
+                        }
+                        let r2 = rx.clone();
+                        let back: Arc<Mutex<Option<$ty>>> = Arc::new(Mutex::new(None));
+                        let got_a: Arc<Mutex<Vec<u64>>> = Arc::new(Mutex::new(Vec::new()));
+                        let got_b: Arc<Mutex<Vec<u64>>> = Arc::new(Mutex::new(Vec::new()));
+                        let (back2, ga, gb) = (back.clone(), got_a.clone(), got_b.clone());
+                        let rounds = 1 + ka % 3;
+                        let a: Job = Box::new(move || {
+                            skew(d0);
+                            for _ in 0..rounds {
+                                if let Ok(v) = rx.try_recv() {
+                                    ga.lock().unwrap().push(v);
+                                }
+                            }
+                            *back2.lock().unwrap() = Some(rx);
+                        });
+                        let b: Job = Box::new(move || {
+                            skew(d1);
+                            if let Ok(v) = r2.try_recv() {
+                                gb.lock().unwrap().push(v);
+                            }
+                            if by_unsub {
+                                r2.unsubscribe();
+                            } else {
+                                drop(r2);
+                            }
+                        });
+                        run_pair(&workers, &go, a, b);
+                        let rx = back.lock().unwrap().take().unwrap();
+                        let mut all: Vec<u64> = got_a.lock().unwrap().clone();
+                        let from_a = all.clone();
+                        let from_b = got_b.lock().unwrap().clone();
+                        all.extend(from_b.iter());
+                        while let Ok(v) = rx.try_recv() {
+                            all.push(v);
+                        }
+                        drop(tx);
+                        (all, from_a, from_b)
+                    }};
+                }
+                let (mut all, from_a, from_b) = if bro {
+                    let (tx, rx) = mq::broadcast_queue_with::<u64, _>(8, mq::wait::BusyWait::new());
+                    leave!(tx, rx, mq::BroadcastReceiver<u64>)
+                } else {
+                    let (tx, rx) = mq::mpmc_queue_with::<u64, _>(8, mq::wait::BusyWait::new());
+                    leave!(tx, rx, mq::MPMCReceiver<u64>)
+                };
+                all.sort();
+                if all != vec![1, 2, 3, 4] {
+                    report(shard, "C12,C01", "sibling-left-during-receive", format!("a stream held the values 1..4 and had two handles; one received once and left ({}) while the other was receiving: handle A got {:?}, the leaving handle got {:?}, and together with what was left afterwards the stream delivered {:?} instead of each value exactly once", if by_unsub { "unsubscribe" } else { "drop" }, from_a, from_b, all), &cfgd);
+                }
+            } else if side_rx && bro {
                 let (tx, rx1) = mq::broadcast_queue_with::<u64, _>(cap, mq::wait::BusyWait::new());
                 let h2a = rx1.add_stream();
                 let h2b = h2a.clone();
